@@ -331,7 +331,7 @@ def override_kwargs(cfg):
         return {"kernel_post_kwargs": {"learning_rate": a, "time_constant": cfg["tc_a"]},
                 "kernel_pre_kwargs": {"learning_rate": c, "time_constant": cfg["tc_b"]}}
     if f == "LinearHomeostasis":
-        return {"plasticity": a}
+        return {"plasticity": a, "target": cfg["target"]}       # each cell keeps its OWN default target
     raise AssertionError(f)
 
 
@@ -482,8 +482,11 @@ def override_cases(rng):
             cfg["override"] = {"lr_a": oa * rng.choice([0.5, 0.25]), "lr_b": ob * rng.choice([0.5, 0.125])}
             cfg["stream"] = "per-cell-override"
             if family == "LinearHomeostasis":
-                cfg.update(param=rng.choice(["weight", "bias", "delay"]), target=rng.choice([0.9, 0.05]),
-                           lr_a=sa * 0.125, override={"lr_a": -sa * 0.25, "lr_b": 1.0})
+                tg = rng.choice([0.9, 0.05])
+                # the second cell has its own plasticity AND its own default target, on the other side of the observed rate;
+                # the trainer is called without a target, so each cell must use its own
+                cfg.update(param=rng.choice(["weight", "bias", "delay"]), target=tg,
+                           lr_a=sa * 0.125, override={"lr_a": -sa * 0.25, "lr_b": 1.0, "target": 0.95 - tg})
             if family in THREE_FACTOR:
                 cfg.update(signal_kind=rng.choice(["scalar", "tensor"]),
                            signal=[rng.choice([1.0, -1.0, 0.5, -2.0]) for _ in range(3)])
